@@ -2135,3 +2135,391 @@ Proof.
       assert (A: Qeq_bool q q = true) by (apply Qeq_bool_iff; reflexivity). rewrite A.
       assert (B: Qeq_bool (inject_Z ze) (Qred (q + ql)) = true) by (apply Qeq_bool_iff; symmetry; exact E3). rewrite B. reflexivity.
 Qed.
+
+(* ---- from the boolean domain predicate to typed records ---- *)
+Definition rec_typed (allowed : list (Z * (ytree -> bool))) (r : row) : Prop :=
+  NoDup (map fst r) /\ forall k v, In (k, v) r -> exists p, assoc k allowed = Some p /\ p v = true.
+Lemma rec_okb_inv allowed v : rec_okb allowed v = true -> exists r, v = YMap r /\ rec_typed allowed r.
+Proof.
+  destruct v; try discriminate. simpl. intro H. apply andb_true_iff in H. destruct H as [H1 H2].
+  exists kvs. split; [reflexivity|]. split; [apply nodupZ_NoDup; exact H1|].
+  intros k v Hin. rewrite forallb_forall in H2. specialize (H2 (k, v) Hin). cbn [fst snd] in H2.
+  destruct (assoc k allowed) as [p|]; [eauto|discriminate].
+Qed.
+Lemma rec_list_inv allowed l : forallb (rec_okb allowed) l = true ->
+  exists recs, l = map YMap recs /\ as_rows (YList l) = Some recs /\ Forall (rec_typed allowed) recs.
+Proof.
+  induction l as [|v l IH]; intro H; [exists []; simpl; auto|].
+  simpl in H. apply andb_true_iff in H. destruct H as [Hv Hl].
+  destruct (rec_okb_inv allowed v Hv) as [r [-> Tr]]. destruct (IH Hl) as [recs [-> [E F]]].
+  exists (r :: recs). split; [reflexivity|]. split; [|constructor; assumption].
+  simpl in *. rewrite E. reflexivity.
+Qed.
+
+Lemma note_in_cases k p : assoc k note_keys_in = Some p ->
+  (k = K_StartTime /\ p = is_int) \/ (k = K_Lane /\ p = is_lane) \/ (k = K_EndTime /\ p = is_int) \/ (k = K_KeySounds /\ p = is_ks).
+Proof.
+  unfold note_keys_in. simpl.
+  destruct (k =? K_StartTime) eqn:E1; [apply Z.eqb_eq in E1; intro H; inversion H; auto|].
+  destruct (k =? K_Lane) eqn:E2; [apply Z.eqb_eq in E2; intro H; inversion H; auto|].
+  destruct (k =? K_EndTime) eqn:E3; [apply Z.eqb_eq in E3; intro H; inversion H; auto|].
+  destruct (k =? K_KeySounds) eqn:E4; [apply Z.eqb_eq in E4; intro H; inversion H; auto 6|discriminate].
+Qed.
+Lemma has_key_In {A} k (l : list (Z * A)) : In k (map fst l) -> has_key k l = true.
+Proof. intro H. unfold has_key. apply memZ_In in H. destruct (assoc_mem k l H) as [v E]. rewrite E. reflexivity. Qed.
+
+Lemma note_hit_typed r : rec_typed note_keys_in r -> has_key K_EndTime r = false -> hit_rec_typed r.
+Proof.
+  intros [ND T] He. split; [exact ND|]. intros k v Hin. destruct (T k v Hin) as [p [Ep Hp]].
+  destruct (note_in_cases k p Ep) as [[-> ->]|[[-> ->]|[[-> ->]|[-> ->]]]]; auto.
+  exfalso. rewrite has_key_In in He; [discriminate|]. apply in_map_iff. exists (K_EndTime, v). auto.
+Qed.
+Lemma note_hold_typed r : rec_typed note_keys_in r -> has_key K_EndTime r = true -> hold_rec_typed r.
+Proof.
+  intros [ND T] He. split; [exact ND|]. split.
+  - intros k v Hin. destruct (T k v Hin) as [p [Ep Hp]].
+    destruct (note_in_cases k p Ep) as [[-> ->]|[[-> ->]|[[-> ->]|[-> ->]]]]; auto 6.
+  - unfold has_key in He. destruct (assoc K_EndTime r) as [v|]; [eauto|discriminate].
+Qed.
+
+(* every typed note record is denotable, and it is a hit exactly when it has no EndTime *)
+Lemma hit_rec_denotes r : hit_rec_typed r -> exists n, note_denote (YMap r) = Some n /\ n_end n = None.
+Proof.
+  intro T. destruct (fH_start_ok [] r T) as [q [_ Q]]. destruct (fH_lane_ok [] r T) as [l [_ [L _]]]. destruct (fH_ks_ok [] r T) as [ks [_ [K _]]].
+  exists (mkNote l q None ks). unfold note_denote. rewrite Q, L, K, (hit_typed_noend r T). auto.
+Qed.
+Lemma hold_rec_denotes r : hold_rec_typed r -> exists n e, note_denote (YMap r) = Some n /\ n_end n = Some e.
+Proof.
+  intro T. destruct (fL_start_ok [] r T) as [q [_ Q]]. destruct (fL_lane_ok [] r T) as [l [_ [L _]]]. destruct (fL_ks_ok [] r T) as [ks [_ [K _]]].
+  destruct (hold_typed_end r T) as [ze E].
+  exists (mkNote l q (Some (inject_Z ze)) ks), (inject_Z ze). unfold note_denote. rewrite Q, L, K, E. auto.
+Qed.
+
+Definition is_hit (n : noteD) : bool := match n_end n with None => true | Some _ => false end.
+Lemma omap_filter {A B} (f : A -> option B) (p : A -> bool) (cls : B -> bool) l es :
+  omap f l = Some es -> (forall x n, In x l -> f x = Some n -> cls n = p x) -> omap f (filter p l) = Some (filter cls es).
+Proof.
+  revert es. induction l as [|x l IH]; intros es H Hc; simpl in *; [inversion H; reflexivity|].
+  destruct (f x) as [n|] eqn:E; [|discriminate]. destruct (omap f l) as [t|] eqn:E2; [|discriminate]. inversion H; subst es.
+  simpl. rewrite (Hc x n (or_introl eq_refl) E). destruct (p x); simpl.
+  - rewrite E. rewrite (IH t eq_refl); [reflexivity|]. intros y m Hy. apply Hc. right. exact Hy.
+  - apply (IH t eq_refl). intros y m Hy. apply Hc. right. exact Hy.
+Qed.
+Lemma omap_total {A B} (f : A -> option B) l : (forall x, In x l -> exists n, f x = Some n) -> exists ns, omap f l = Some ns.
+Proof.
+  induction l as [|x l IH]; intro H; [exists []; reflexivity|]. destruct (H x (or_introl eq_refl)) as [n E].
+  destruct IH as [ns E2]; [intros y Hy; apply H; right; exact Hy|]. exists (n :: ns). simpl. rewrite E, E2. reflexivity.
+Qed.
+
+(* ---- _read_notes ---- *)
+Lemma filter_Forall {A} (P : A -> Prop) p l : Forall P l -> Forall P (filter p l).
+Proof. intro H. apply Forall_forall. intros x Hx. apply filter_In in Hx. rewrite Forall_forall in H. apply H. tauto. Qed.
+
+Lemma read_notes_ok hc lc recs :
+  frame_okb (hit_decl false) false (mkFrame hc []) = true -> frame_okb (hold_decl false) false (mkFrame lc []) = true ->
+  Forall (rec_typed note_keys_in) recs ->
+  exists fh fl es nh nl,
+    read_notes hc lc hits_from_yaml holds_from_yaml recs = Some (fh, fl) /\
+    frame_okb (hit_decl false) false fh = true /\ frame_okb (hold_decl false) false fl = true /\
+    omap note_denote (map YMap recs) = Some es /\
+    omap hit_row_denote (f_rows fh) = Some nh /\ omap hold_row_denote (f_rows fl) = Some nl /\
+    perm_eqb note_eqb es (nh ++ nl) = true.
+Proof.
+  intros Hhc Hlc HT. rewrite Forall_forall in HT.
+  set (ph := fun r : row => negb (has_key K_EndTime r)). set (pl := fun r : row => has_key K_EndTime r).
+  assert (TH: Forall hit_rec_typed (filter ph recs)).
+  { apply Forall_forall. intros r Hr. apply filter_In in Hr. destruct Hr as [Hr Hp]. apply note_hit_typed; [apply HT; exact Hr|].
+    unfold ph in Hp. apply negb_true_iff in Hp. exact Hp. }
+  assert (TL: Forall hold_rec_typed (filter pl recs)).
+  { apply Forall_forall. intros r Hr. apply filter_In in Hr. destruct Hr as [Hr Hp]. apply note_hold_typed; [apply HT; exact Hr|exact Hp]. }
+  (* every record denotes *)
+  assert (DN: forall r, In r recs -> exists n, note_denote (YMap r) = Some n /\ is_hit n = ph r).
+  { intros r Hr. unfold ph. destruct (has_key K_EndTime r) eqn:E.
+    - destruct (hold_rec_denotes r (note_hold_typed r (HT r Hr) E)) as [n [e [D1 D2]]]. exists n. split; [exact D1|]. unfold is_hit. rewrite D2. reflexivity.
+    - destruct (hit_rec_denotes r (note_hit_typed r (HT r Hr) E)) as [n [D1 D2]]. exists n. split; [exact D1|]. unfold is_hit. rewrite D2. reflexivity. }
+  destruct (omap_total (fun r => note_denote (YMap r)) recs) as [es Ees]; [intros r Hr; destruct (DN r Hr) as [n [D _]]; eauto|].
+  assert (Fh: omap (fun r => note_denote (YMap r)) (filter ph recs) = Some (filter is_hit es)).
+  { apply omap_filter; [exact Ees|]. intros r n Hr E. destruct (DN r Hr) as [n' [D C]]. rewrite D in E. inversion E; subst. exact C. }
+  assert (Fl: omap (fun r => note_denote (YMap r)) (filter pl recs) = Some (filter (fun n => negb (is_hit n)) es)).
+  { apply omap_filter; [exact Ees|]. intros r n Hr E. destruct (DN r Hr) as [n' [D C]]. rewrite D in E. inversion E; subst. rewrite C. unfold ph, pl. apply negb_involutive. }
+  (* the two readers *)
+  assert (RH: exists fh nh, match filter ph recs with [] => Some (mkFrame hc []) | _ => hits_from_yaml (filter ph recs) end = Some fh /\
+              frame_okb (hit_decl false) false fh = true /\ omap hit_row_denote (f_rows fh) = Some nh /\ nh = filter is_hit es).
+  { destruct (filter ph recs) as [|r0 t] eqn:Ef.
+    - exists (mkFrame hc []), []. simpl in Fh. inversion Fh. auto.
+    - destruct (hits_from_yaml_ok (r0 :: t) TH) as [fr [E1 [E2 [ns [E3 E4]]]]].
+      exists fr, ns. split; [exact E1|]. split; [exact E2|]. split; [exact E3|]. rewrite omap_map in E4. rewrite E4 in Fh. inversion Fh. reflexivity. }
+  assert (RL: exists fl nl, match filter pl recs with [] => Some (mkFrame lc []) | _ => holds_from_yaml (filter pl recs) end = Some fl /\
+              frame_okb (hold_decl false) false fl = true /\ omap hold_row_denote (f_rows fl) = Some nl /\
+              Forall2 (fun x y => note_eqb x y = true) (filter (fun n => negb (is_hit n)) es) nl).
+  { destruct (filter pl recs) as [|r0 t] eqn:Ef.
+    - exists (mkFrame lc []), []. simpl in Fl. inversion Fl. repeat split; auto.
+    - destruct (holds_from_yaml_ok (r0 :: t) TL) as [fr [E1 [E2 [ns [es' [E3 [E4 E5]]]]]]].
+      exists fr, ns. split; [exact E1|]. split; [exact E2|]. split; [exact E3|]. rewrite omap_map in E4. rewrite E4 in Fl. inversion Fl; subst. exact E5. }
+  destruct RH as [fh [nh [H1 [H2 [H3 H4]]]]]. destruct RL as [fl [nl [L1 [L2 [L3 L4]]]]].
+  exists fh, fl, es, nh, nl. split.
+  - unfold read_notes. cbv zeta.
+    change (filter (fun r : list (Z * ytree) => negb (has_key K_EndTime r)) recs) with (filter ph recs).
+    change (filter (fun r : list (Z * ytree) => has_key K_EndTime r) recs) with (filter pl recs).
+    match goal with |- ?X >>= _ = _ => replace X with (Some fh) by (symmetry; exact H1) end. cbn [bind].
+    match goal with |- ?X >>= _ = _ => replace X with (Some fl) by (symmetry; exact L1) end. reflexivity.
+  - split; [exact H2|]. split; [exact L2|]. split; [rewrite omap_map; exact Ees|]. split; [exact H3|]. split; [exact L3|].
+    apply (perm_eqb_two_classes note_eqb is_hit).
+    + subst nh. apply Forall2_refl. apply note_eqb_refl.
+    + exact L4.
+    + intros x z Hx Cx Hz. subst nh. apply filter_In in Hz. destruct Hz as [_ Cz].
+      unfold is_hit in *. unfold note_eqb. destruct (n_end x); [|discriminate]. destruct (n_end z); [discriminate|].
+      cbn [oq_eqb]. rewrite andb_false_r. reflexivity.
+Qed.
+
+(* ---- _read_bpms / _read_svs ---- *)
+Lemma pt_rec_ok allowed kval (d0 : ytree) (dq : Q) r :
+  assoc K_StartTime allowed = Some is_int -> assoc kval allowed = Some is_num -> num d0 = Some dq ->
+  rec_typed allowed r ->
+  exists p, point_denote kval dq (YMap r) = Some p /\ is_num (getd K_StartTime (YInt 0) r) = true /\ is_num (getd kval d0 r) = true.
+Proof.
+  intros A1 A2 Hd [_ T]. unfold point_denote, get_default, getd.
+  assert (S: exists qs, match assoc K_StartTime r with Some v => num v | None => Some 0%Q end = Some qs /\
+                        is_num (match assoc K_StartTime r with Some v => v | None => YInt 0 end) = true).
+  { destruct (assoc_cases K_StartTime r) as [E|[v [E Hin]]]; rewrite E; [eauto|].
+    destruct (T _ _ Hin) as [p [Ep Hp]]. rewrite A1 in Ep. inversion Ep; subst p. destruct v; try discriminate. simpl. eauto. }
+  assert (V: exists qv, match assoc kval r with Some v => num v | None => Some dq end = Some qv /\
+                        is_num (match assoc kval r with Some v => v | None => d0 end) = true).
+  { destruct (assoc_cases kval r) as [E|[v [E Hin]]]; rewrite E.
+    - exists dq. split; [reflexivity|]. destruct d0; try discriminate; reflexivity.
+    - destruct (T _ _ Hin) as [p [Ep Hp]]. rewrite A2 in Ep. inversion Ep; subst p. destruct v; try discriminate; simpl; eauto. }
+  destruct S as [qs [S1 S2]]. destruct V as [qv [V1 V2]]. rewrite S1, V1. eauto.
+Qed.
+
+Lemma read_bpms_ok bc recs : frame_okb bpm_decl false (mkFrame bc []) = true -> Forall (rec_typed tp_keys_in) recs ->
+  frame_okb bpm_decl false (read_bpms bc recs) = true /\
+  exists ps, omap (point_denote K_Bpm 120%Q) (map YMap recs) = Some ps /\ omap (point_row_denote N_bpm) (f_rows (read_bpms bc recs)) = Some ps.
+Proof.
+  intros Hbc HT. rewrite Forall_forall in HT.
+  assert (P: forall r, In r recs -> exists p, point_denote K_Bpm 120%Q (YMap r) = Some p /\
+             is_num (getd K_StartTime (YInt 0) r) = true /\ is_num (getd K_Bpm (YInt 120) r) = true).
+  { intros r Hr. apply (pt_rec_ok tp_keys_in K_Bpm (YInt 120) 120%Q r); try reflexivity. apply HT. exact Hr. }
+  split.
+  - destruct recs as [|r0 t]; [exact Hbc|]. set (recs := r0 :: t) in *.
+    change (read_bpms bc recs) with
+      (mkFrame [N_offset; N_bpm; N_metronome]
+         (map (fun r => [(N_offset, getd K_StartTime (YInt 0) r); (N_bpm, getd K_Bpm (YInt 120) r); (N_metronome, YInt 4)]) recs)).
+    unfold frame_okb. cbn [f_cols f_rows]. apply andb_true_iff. split; [reflexivity|].
+    apply forallb_forall. intros row Hrow. apply in_map_iff in Hrow. destruct Hrow as [r [<- Hr]].
+    destruct (P r Hr) as [_ [_ [A B]]]. simpl. rewrite A, B. reflexivity.
+  - destruct (omap_total (fun r => point_denote K_Bpm 120%Q (YMap r)) recs) as [ps E]; [intros r Hr; destruct (P r Hr) as [p [D _]]; eauto|].
+    exists ps. rewrite omap_map. split; [exact E|]. apply read_bpms_denote. rewrite omap_map. exact E.
+Qed.
+Lemma read_svs_ok sc recs : frame_okb sv_decl false (mkFrame sc []) = true -> Forall (rec_typed sv_keys_in) recs ->
+  frame_okb sv_decl false (read_svs sc recs) = true /\
+  exists ps, omap (point_denote K_Multiplier 1%Q) (map YMap recs) = Some ps /\ omap (point_row_denote N_multiplier) (f_rows (read_svs sc recs)) = Some ps.
+Proof.
+  intros Hsc HT. rewrite Forall_forall in HT.
+  assert (P: forall r, In r recs -> exists p, point_denote K_Multiplier 1%Q (YMap r) = Some p /\
+             is_num (getd K_StartTime (YInt 0) r) = true /\ is_num (getd K_Multiplier (YFloat 1) r) = true).
+  { intros r Hr. apply (pt_rec_ok sv_keys_in K_Multiplier (YFloat 1) 1%Q r); try reflexivity. apply HT. exact Hr. }
+  split.
+  - destruct recs as [|r0 t]; [exact Hsc|]. set (recs := r0 :: t) in *.
+    change (read_svs sc recs) with
+      (mkFrame [N_offset; N_multiplier]
+         (map (fun r => [(N_offset, getd K_StartTime (YInt 0) r); (N_multiplier, getd K_Multiplier (YFloat 1) r)]) recs)).
+    unfold frame_okb. cbn [f_cols f_rows]. apply andb_true_iff. split; [reflexivity|].
+    apply forallb_forall. intros row Hrow. apply in_map_iff in Hrow. destruct Hrow as [r [<- Hr]].
+    destruct (P r Hr) as [_ [_ [A B]]]. simpl. rewrite A, B. reflexivity.
+  - destruct (omap_total (fun r => point_denote K_Multiplier 1%Q (YMap r)) recs) as [ps E]; [intros r Hr; destruct (P r Hr) as [p [D _]]; eauto|].
+    exists ps. rewrite omap_map. split; [exact E|]. apply read_svs_denote. rewrite omap_map. exact E.
+Qed.
+
+(* ---- metadata: the words of a string are well-formed tags; what is read is typed ---- *)
+Lemma words_go_good s : forall cur, memZ 32 cur = false -> forallb good_tag (words_go s cur) = true.
+Proof.
+  assert (R: forall cur, memZ 32 cur = false -> memZ 32 (rev cur) = false).
+  { intros cur H. destruct (memZ 32 (rev cur)) eqn:E; [|reflexivity]. apply memZ_In in E. apply in_rev in E. apply memZ_In in E. congruence. }
+  assert (N: forall x cur, nonempty (rev (x :: cur)) = true).
+  { intros x cur. simpl. destruct (rev cur); reflexivity. }
+  induction s as [|c s IH]; intros cur H; cbn [words_go].
+  - destruct cur as [|x cur]; [reflexivity|]. cbn [forallb]. unfold good_tag. rewrite (R (x :: cur) H). rewrite (N x cur). reflexivity.
+  - destruct (c =? 32) eqn:E.
+    + destruct cur as [|x cur]; [apply IH; reflexivity|]. cbn [forallb]. unfold good_tag at 1. rewrite (R (x :: cur) H), (N x cur). cbn [negb andb]. apply IH. reflexivity.
+    + apply IH. unfold memZ in *. cbn [existsb]. rewrite Z.eqb_sym, E. exact H.
+Qed.
+Lemma words_tag_okb s : forallb tag_okb (map YStr (words s)) = true.
+Proof.
+  pose proof (words_go_good s [] eq_refl) as H. unfold words. induction (words_go s []) as [|w ws IH]; [reflexivity|].
+  simpl in *. apply andb_true_iff in H. destruct H as [Hw Hws]. rewrite (IH Hws), andb_true_r.
+  unfold good_tag in Hw. unfold nonempty in Hw. apply andb_true_iff in Hw. destruct Hw as [A B]. rewrite A. destruct w; [discriminate|reflexivity].
+Qed.
+
+Definition meta_cell_okb (kt : Z * Z) (v : ytree) : bool :=
+  if fst kt =? ref_tags_key then match v with YList l => forallb tag_okb l | _ => false end else has_type (snd kt) v.
+Lemma meta_read_typed tbl md d d' decl act :
+  (forall k, In k (map fst tbl) -> assoc k d' = assoc k d) ->
+  all2 (fun kt kd => (fst kt =? fst kd) && has_type (if fst kt =? ref_tags_key then 4 else snd kt) (snd kd)) tbl md = true ->
+  omap (meta_decl1 d) tbl = Some decl -> omap (read_meta1 d') md = Some act -> all2 meta_cell_okb tbl act = true.
+Proof.
+  revert md decl act. induction tbl as [|[k ty] tbl IH]; intros md decl act Hd Hall Hdec Hact.
+  - destruct md; [|discriminate]. inversion Hact. reflexivity.
+  - destruct md as [|[k' dflt] md]; [discriminate|]. cbn [all2 fst snd] in Hall.
+    apply andb_true_iff in Hall. destruct Hall as [Hk Hall]. apply andb_true_iff in Hk. destruct Hk as [Ek Hty].
+    apply Z.eqb_eq in Ek. subst k'.
+    cbn [omap] in Hdec, Hact. destruct (meta_decl1 d (k, ty)) as [dk|] eqn:E1; [|discriminate].
+    destruct (omap (meta_decl1 d) tbl) as [dt|] eqn:E2; [|discriminate].
+    destruct (read_meta1 d' (k, dflt)) as [a|] eqn:E3; [|discriminate].
+    destruct (omap (read_meta1 d') md) as [at_|] eqn:E4; [|discriminate]. inversion Hact; subst act.
+    cbn [all2]. rewrite (IH md dt at_); [|intros k0 Hk0; apply Hd; right; exact Hk0|exact Hall|first [reflexivity|exact E2]|first [reflexivity|exact E4]].
+    rewrite andb_true_r.
+    assert (Ea: assoc k d' = assoc k d) by (apply Hd; left; reflexivity).
+    unfold meta_decl1 in E1. unfold read_meta1, K_Tags, getd in E3. unfold meta_cell_okb, ref_tags_key in *. cbn [fst snd] in *.
+    rewrite Ea in E3. destruct (assoc k d) as [v|].
+    + destruct (k =? 115) eqn:Et.
+      * destruct v; try discriminate. inversion E3; subst a. rewrite tags_of_is_words. apply words_tag_okb.
+      * destruct (has_type ty v) eqn:Hv; [|discriminate]. inversion E3; subst a. exact Hv.
+    + destruct (k =? 115) eqn:Et; inversion E3; subst a; [reflexivity|exact Hty].
+Qed.
+Lemma meta_denote_total tbl d :
+  (forall k ty v, In (k, ty) tbl -> assoc k d = Some v -> has_type ty v = true) ->
+  (forall k ty, In (k, ty) tbl -> k = ref_tags_key -> ty = 0) ->
+  exists decl, omap (meta_decl1 d) tbl = Some decl.
+Proof.
+  induction tbl as [|[k ty] tbl IH]; intros H Ht; [exists []; reflexivity|].
+  destruct IH as [dt E]; [intros k0 ty0 v0 Hin; apply H; right; exact Hin|intros k0 ty0 Hin; apply Ht; right; exact Hin|].
+  assert (X: exists dk, meta_decl1 d (k, ty) = Some dk).
+  { unfold meta_decl1. destruct (assoc k d) as [v|] eqn:Ev; [|eauto].
+    pose proof (H k ty v (or_introl eq_refl) Ev) as Hv. destruct (k =? ref_tags_key) eqn:Et.
+    - apply Z.eqb_eq in Et. rewrite (Ht k ty (or_introl eq_refl) Et) in Hv. destruct v; try discriminate Hv. eauto.
+    - rewrite Hv. eauto. }
+  destruct X as [dk Ek]. exists (dk :: dt). cbn [omap]. rewrite Ek, E. reflexivity.
+Qed.
+
+(* ---- QuaMap.read, whole document ---- *)
+Lemma section_inv allowed k d : section_okb allowed k d = true ->
+  exists l, assoc k d = Some (YList l) /\ forallb (rec_okb allowed) l = true.
+Proof. unfold section_okb. destruct (assoc k d) as [v|]; [|discriminate]. destruct v; try discriminate. eauto. Qed.
+Lemma In_assoc_nodup {A} (l : list (Z * A)) k v : NoDup (map fst l) -> In (k, v) l -> assoc k l = Some v.
+Proof.
+  induction l as [|[k' v'] t IH]; intros ND Hin; [contradiction|]. simpl. inversion ND; subst.
+  destruct Hin as [E|Hin]; [inversion E; subst; rewrite Z.eqb_refl; reflexivity|].
+  destruct (k =? k') eqn:Ek; [|apply IH; assumption]. apply Z.eqb_eq in Ek. subst. exfalso. apply H1. apply in_map_iff. exists (k', v). auto.
+Qed.
+Lemma all2_ext_in {A B} (p q : A -> B -> bool) a b : (forall x y, p x y = q x y) -> all2 p a b = all2 q a b.
+Proof. intro H. revert b. induction a as [|x a IH]; destruct b as [|y b]; simpl; auto. rewrite H, IH. reflexivity. Qed.
+
+Definition defaults_ok (hc lc bc sc : list Z) (md : list (Z * ytree)) : bool :=
+  frame_okb (hit_decl false) false (mkFrame hc []) && frame_okb (hold_decl false) false (mkFrame lc [])
+  && frame_okb bpm_decl false (mkFrame bc []) && frame_okb sv_decl false (mkFrame sc [])
+  && all2 (fun kt kd => (fst kt =? fst kd) && has_type (if fst kt =? ref_tags_key then 4 else snd kt) (snd kd)) ref_meta_table md.
+
+Theorem qua_read_ok hc lc bc sc md doc : defaults_ok hc lc bc sc md = true -> wf_docb doc = true ->
+  exists c, qua_read_gen hc lc bc sc md hits_from_yaml holds_from_yaml doc = Some c /\
+            read_specb doc (Some c) = true /\ wf_chartb false c = true.
+Proof.
+  intros Hdef Hwf. unfold defaults_ok in Hdef. do 4 (apply andb_true_iff in Hdef; destruct Hdef as [Hdef ?]).
+  rename Hdef into Dh, H2 into Dl, H1 into Db, H0 into Ds, H into Dm.
+  destruct doc as [| | | | | | |d]; try discriminate. unfold wf_docb in Hwf.
+  do 4 (apply andb_true_iff in Hwf; destruct Hwf as [Hwf ?]).
+  rename Hwf into Wn, H2 into Wt, H1 into Sh, H0 into Sb, H into Ss.
+  apply nodupZ_NoDup in Wn.
+  destruct (section_inv _ _ _ Sh) as [lh [Ah Oh]]. destruct (section_inv _ _ _ Sb) as [lb [Ab Ob]]. destruct (section_inv _ _ _ Ss) as [ls [As_ Os]].
+  destruct (rec_list_inv _ _ Oh) as [rh [-> [Rh Th]]]. destruct (rec_list_inv _ _ Ob) as [rb [-> [Rb Tb]]]. destruct (rec_list_inv _ _ Os) as [rs [-> [Rs Ts]]].
+  destruct (read_notes_ok hc lc rh Dh Dl Th) as [fh [fl [es [nh [nl [N1 [N2 [N3 [N4 [N5 [N6 N7]]]]]]]]]]].
+  destruct (read_bpms_ok bc rb Db Tb) as [B1 [pb [B2 B3]]]. destruct (read_svs_ok sc rs Ds Ts) as [S1 [ps [S2 S3]]].
+  set (d' := remove_key K_SliderVelocities (remove_key K_TimingPoints (remove_key K_HitObjects d))).
+  assert (Hd': forall k, In k (map fst ref_meta_table) -> assoc k d' = assoc k d).
+  { intros k Hk. unfold d'. rewrite !assoc_remove_key; [reflexivity| | |]; intro X; subst k; simpl in Hk;
+      repeat (destruct Hk as [Hk|Hk]; [discriminate Hk|]); exact Hk. }
+  destruct (meta_denote_total ref_meta_table d) as [decl Edecl].
+  { intros k ty v Hin Ev. rewrite forallb_forall in Wt. specialize (Wt (k, v) (assoc_In _ _ _ Ev)). cbn [fst snd] in Wt.
+    assert (M: memZ k sections = false).
+    { simpl in Hin. repeat (destruct Hin as [Hin|Hin]; [inversion Hin; reflexivity|]). contradiction. }
+    rewrite M in Wt. cbn [orb] in Wt.
+    rewrite (In_assoc_nodup ref_meta_table k ty) in Wt; [exact Wt| |exact Hin]. repeat constructor; simpl; intuition discriminate. }
+  { intros k ty Hin Ek. subst k. simpl in Hin. repeat (destruct Hin as [Hin|Hin]; [inversion Hin; try reflexivity|]). contradiction. }
+  destruct (meta_read_ok ref_meta_table md d d' decl Hd' Dm Edecl) as [m [M1 [M2 [M3 M4]]]].
+  pose proof (meta_read_typed ref_meta_table md d d' decl m Hd' Dm Edecl M1) as M5.
+  exists (mkChart fh fl (read_bpms bc rb) (read_svs sc rs) m). split; [|split].
+  - unfold qua_read_gen. rewrite Ah. cbn [bind]. rewrite Rh. cbn [bind]. rewrite N1. cbn [bind].
+    rewrite assoc_remove_key by discriminate. rewrite Ab. cbn [bind]. rewrite Rb. cbn [bind].
+    rewrite !assoc_remove_key by discriminate. rewrite As_. cbn [bind]. rewrite Rs. cbn [bind].
+    fold d'. rewrite read_meta_unfold, M1. reflexivity.
+  - unfold read_specb, qua_denote, section_denote. rewrite Ah, Ab, As_, N4, B2, S2. rewrite meta_denote_unfold, Edecl.
+    unfold chart_denote. cbn [c_hits c_holds c_bpms c_svs c_meta]. rewrite N5, N6, B3, S3.
+    rewrite M3, Nat.eqb_refl. unfold den_eqb. cbn [d_notes d_bpms d_svs d_meta]. rewrite N7.
+    rewrite (perm_eqb_Forall2 pt_eqb pb pb) by (apply Forall2_refl; apply pt_eqb_refl).
+    rewrite (perm_eqb_Forall2 pt_eqb ps ps) by (apply Forall2_refl; apply pt_eqb_refl).
+    rewrite meta_refinesb_unfold, M2, M4, map_length, M3, Nat.eqb_refl. reflexivity.
+  - unfold wf_chartb. cbn [c_hits c_holds c_bpms c_svs c_meta]. rewrite N2, N3, B1, S1. cbn [andb].
+    unfold meta_okb. rewrite <- M5. apply all2_ext_in. intros [k ty] v. unfold meta_cell_okb. cbn [fst snd].
+    destruct (k =? ref_tags_key); [reflexivity|]. rewrite andb_false_l, orb_false_r. reflexivity.
+Qed.
+
+(* ---- instantiation with the live tables, and the round trips ---- *)
+Theorem live_defaults_ok :
+  defaults_ok Tables.Tables.c06.hit_cols Tables.Tables.c06.hold_cols Tables.Tables.c06.bpm_cols Tables.Tables.c06.sv_cols Live.meta_defaults = true.
+Proof. vm_compute. reflexivity. Qed.
+
+(* QuaMap.read of a document in the domain: succeeds, yields the chart the document denotes, and that chart is strict *)
+Theorem qua_read_live_ok doc : wf_docb doc = true ->
+  exists c, Live.read doc = Some c /\ read_specb doc (Some c) = true /\ wf_chartb false c = true.
+Proof. intro H. exact (qua_read_ok _ _ _ _ _ doc live_defaults_ok H). Qed.
+Theorem qua_read_denotes doc : wf_docb doc = true -> ReadSpec doc (Live.read doc).
+Proof.
+  intro H. destruct (qua_read_live_ok doc H) as [c [E [S _]]]. rewrite E. apply read_specb_sound. exact S.
+Qed.
+
+(* a written document is a document of the reader's domain *)
+Lemma rec_okb_mono (a b : list (Z * (ytree -> bool))) v :
+  (forall k p, assoc k a = Some p -> exists q, assoc k b = Some q /\ forall x, p x = true -> q x = true) ->
+  rec_okb a v = true -> rec_okb b v = true.
+Proof.
+  intros M. destruct v; try discriminate. unfold rec_okb. intro H. apply andb_true_iff in H. destruct H as [H1 H2].
+  rewrite H1. cbn [andb]. apply forallb_forall. intros [k x] Hin. rewrite forallb_forall in H2. specialize (H2 (k, x) Hin). cbn [fst snd] in *.
+  destruct (assoc k a) as [p|] eqn:E; [|discriminate]. destruct (M k p E) as [q [Eq Hq]]. rewrite Eq. apply Hq. exact H2.
+Qed.
+Lemma section_okb_mono a b k d :
+  (forall k p, assoc k a = Some p -> exists q, assoc k b = Some q /\ forall x, p x = true -> q x = true) ->
+  section_okb a k d = true -> section_okb b k d = true.
+Proof.
+  intros M. unfold section_okb. destruct (assoc k d) as [v|]; [|discriminate]. destruct v; try discriminate.
+  intro H. apply forallb_forall. intros x Hx. rewrite forallb_forall in H. apply (rec_okb_mono a b x M). apply H. exact Hx.
+Qed.
+Lemma is_float_is_num x : is_float x = true -> is_num x = true.
+Proof. destruct x; try discriminate; reflexivity. Qed.
+Theorem wf_qua_doc_is_wf_doc d : wf_qua_docb d = true -> wf_docb d = true.
+Proof.
+  destruct d; try discriminate. unfold wf_qua_docb, wf_docb. intro H.
+  do 4 (apply andb_true_iff in H; destruct H as [H ?]). rewrite H. cbn [andb].
+  apply andb_true_iff; split; [apply andb_true_iff; split; [apply andb_true_iff; split|]|].
+  - apply forallb_forall. intros kv Hin. rewrite forallb_forall in H3. specialize (H3 kv Hin).
+    destruct (memZ (fst kv) sections); [reflexivity|]. cbn [orb] in *. destruct (assoc (fst kv) ref_meta_table); [exact H3|reflexivity].
+  - exact H2.
+  - apply (section_okb_mono tp_keys tp_keys_in); [|exact H1].
+    intros k p. unfold tp_keys, tp_keys_in. simpl. destruct (k =? K_StartTime); [intro E; inversion E; eauto|].
+    destruct (k =? K_Bpm); [intro E; inversion E; exists is_num; split; [reflexivity|apply is_float_is_num]|discriminate].
+  - apply (section_okb_mono sv_keys sv_keys_in); [|exact H0].
+    intros k p. unfold sv_keys, sv_keys_in. simpl. destruct (k =? K_StartTime); [intro E; inversion E; eauto|].
+    destruct (k =? K_Multiplier); [intro E; inversion E; exists is_num; split; [reflexivity|apply is_float_is_num]|discriminate].
+Qed.
+
+(* read after write: for every strict chart the writer produces a well-formed document denoting the chart within 1 ms,
+   the reader accepts that document, reads exactly what it denotes, and hands back a strict chart again *)
+Theorem qua_read_after_write c : wf_chartb false c = true ->
+  exists d c', Live.write c = Some d /\ Live.read d = Some c' /\
+               WriteSpec c (Some d) /\ ReadSpec d (Some c') /\ wf_chartb false c' = true.
+Proof.
+  intro H. pose proof (qua_write_live_ok c H) as W. destruct (Live.write c) as [d|] eqn:E; [|discriminate W].
+  assert (Wd: wf_docb d = true).
+  { apply wf_qua_doc_is_wf_doc. unfold write_specb in W. apply andb_true_iff in W. tauto. }
+  destruct (qua_read_live_ok d Wd) as [c' [R [S T]]].
+  exists d, c'. split; [reflexivity|]. split; [exact R|]. split; [apply write_specb_sound; exact W|]. split; [apply read_specb_sound; exact S|exact T].
+Qed.
+(* write after read: for every document of the domain the reader yields the chart it denotes and the writer turns that
+   chart into a well-formed document denoting it within 1 ms (and that document is again in the reader's domain) *)
+Theorem qua_write_after_read doc : wf_docb doc = true ->
+  exists c d, Live.read doc = Some c /\ Live.write c = Some d /\
+              ReadSpec doc (Some c) /\ WriteSpec c (Some d) /\ wf_docb d = true.
+Proof.
+  intro H. destruct (qua_read_live_ok doc H) as [c [R [S T]]].
+  pose proof (qua_write_live_ok c T) as W. destruct (Live.write c) as [d|] eqn:E; [|discriminate W].
+  exists c, d. split; [exact R|]. split; [exact E|]. split; [apply read_specb_sound; exact S|]. split; [apply write_specb_sound; exact W|].
+  apply wf_qua_doc_is_wf_doc. unfold write_specb in W. apply andb_true_iff in W. tauto.
+Qed.
